@@ -511,10 +511,12 @@ func (srv *Server) serveUDP(l net.PacketConn) error {
 	lUDP, isUDP := l.(*net.UDPConn)
 	readerPC, canPacketConn := reader.(PacketConnReader)
 	if !isUDP && !canPacketConn {
-		// Nothing was started: no serve loop runs and nobody will close srv.shutdown.
+		// Nothing was started: no serve loop runs. A Shutdown that saw the server as
+		// started in the meantime waits for srv.shutdown, so close it here.
 		srv.lock.Lock()
 		srv.started = false
 		srv.lock.Unlock()
+		close(srv.shutdown)
 		return &Error{err: "PacketConnReader was not implemented on Reader returned from DecorateReader but is required for net.PacketConn"}
 	}
 
